@@ -125,7 +125,8 @@ def afm_model(g, n):
                     dom = dict(ranges=[(lo, lo + rng.randint(0, 50))] + ([(100, 200)] if rng.random() < 0.3 else []), elems=[])
                     dv, nv = rng.choice([0, 0, rng.randint(1, 9)]), rng.choice([0, 0, 100, 7])   # default 0 with another null value
                 else:
-                    elems = rng.sample(["aa", "bb", "low", "High", "inf", "nan", "infinity", 3, 7, 0, 1.5, 2.25, 10.0], rng.randint(1, 3))
+                    elems = rng.sample(["aa", "bb", "low", "High", "inf", "nan", "infinity", 3, 7, 0, 1.5, 2.25, 10.0,
+                                    2**53 + 1, 10**22 + 7, 2**62 - 1, '"cafe\u0301"', '"caf\u00e9"', '"\u212b"', '"x y"'], rng.randint(1, 3))
                     dom = dict(ranges=[], elems=elems)
                     dv, nv = elems[0], rng.choice(["none", 0, 2])
                 f["attrs"].append(spec.A(an, default=dv, domain=dom, null=nv))
